@@ -226,6 +226,7 @@ type LState struct {
 	alloc        *allocator
 	currentFrame *callFrame
 	wrapped      bool
+	started      bool // the body has been entered; a Go body that yields leaves no frame behind
 	uvcache      *Upvalue
 	hasErrorFunc bool
 	mainLoop     func(*LState, *callFrame)
